@@ -66,11 +66,13 @@ def gen_db(rng):
     return known, mand
 
 
-def make_db(known, mand):
+def make_db(known, mand, canonical=None):
     from pyflyby._importdb import ImportDB
     src = "".join(s + "\n" for s in known)
     if mand:
         src += "__mandatory_imports__ = %r\n" % (list(mand),)
+    if canonical:
+        src += "__canonical_imports__ = %r\n" % (dict(canonical),)
     return ImportDB(src)
 
 
@@ -101,8 +103,33 @@ def gen_rewriter_case(rng, tool=None, **kw):
         except (SyntaxError, ValueError):
             pass
     flags = dict(add_missing=rng.random() < 0.85, remove_unused=rng.random() < 0.85, add_mandatory=rng.random() < 0.8)
-    return dict(text=text, tool=tool or rng.choice(TOOLS[:2] + TOOLS[:2] + TOOLS), params=gen_params(rng),
-                known=known, mandatory=mand, flags=flags)
+    tool = tool or rng.choice(TOOLS[:2] + TOOLS[:2] + TOOLS)
+    case = dict(text=text, tool=tool, params=gen_params(rng), known=known, mandatory=mand, flags=flags)
+    if tool in ("transform0", "canonicalize0") and rng.random() < 0.7:
+        # a rename map that does not apply: no import and no whole-word occurrence of OLD anywhere, but look-alike
+        # text (OLD with its dots replaced, OLD as part of a longer word, in strings and comments)
+        import re as _re
+        mp = {}
+        for old in rng.sample(["os.path", "qq.zz", "numpy.core", "abq", "m9.f", "a.b"], rng.randint(1, 2)):
+            if _re.search(r"\b%s\b" % _re.escape(old), text) or _re.search(r"\b%s\b" % _re.escape(old.split(".")[0]), text):
+                continue
+            mp[old] = rng.choice(["zz9.new", "posixpath", "xnew"])
+        if mp:
+            extra = []
+            for old in mp:
+                for ch in rng.sample(["_", "+", "/", "x", " . "], 2):
+                    look = old.replace(".", ch)
+                    extra.append(rng.choice(["# see %s\n", "s_%d = '%s'\n" % (len(extra), "%s"), "v_%d = 1  # %s\n" % (len(extra), "%s")]) % look)
+                extra.append("%s_tail = x%s = 0\n" % (old.replace(".", "_"), old.replace(".", "")))
+            cand = (text if text.endswith("\n") else text + "\n") + "".join(extra)
+            try:
+                compile(cand, "<na>", "exec", dont_inherit=True)
+                if not any(_re.search(r"\b%s\b" % _re.escape(o), cand) for o in mp):
+                    case["text"] = cand
+                    case["map"] = mp
+            except (SyntaxError, ValueError):
+                pass
+    return case
 
 
 # --------------------------------------------------------------------------- running the tools
@@ -127,7 +154,7 @@ def run_tool(case, text=None):
     elif tool == "transform0":
         out = I.transform_imports(blk, case.get("map", {}), params=params)
     elif tool == "canonicalize0":
-        db = make_db(case.get("known", []), [])
+        db = make_db(case.get("known", []), [], canonical=case.get("map"))
         out = I.canonicalize_imports(blk, params=params, db=db)
     elif tool == "replace_star":
         out = I.replace_star_imports(blk, params=params)
